@@ -168,6 +168,22 @@ def OPS(E):
             r.c('async_opt 0 max_request_count 100')
         return f
 
+    def with_async_http(r):
+        r.c('ctx 0')
+        r.c('async_new 0 0 sign')
+        r.c('async_endpoint 0 set ksi+http://a.example:80/x anon anon')
+        r.c('async_opt 0 cache_size 4')
+        r.c('async_opt 0 max_request_count 100')
+
+    def async_http_from_scratch(r):
+        # service creation and endpoint set-up are part of the faulted operation (for HTTP the first set-up registers a context-wide object)
+        out = [r.c('async_new 0 0 sign').get('rc'), r.c('async_endpoint 0 set ksi+http://a.example:80/x anon anon').get('rc')]
+        if out != ['0', '0']:
+            return out
+        r.c('async_opt 0 cache_size 4')
+        r.c('async_opt 0 max_request_count 100')
+        return out + async_sign(r)
+
     def with_sig_nocache(r):
         r.c('ctx 0')
         r.c('opt 0 hash_cache 0')
@@ -260,6 +276,8 @@ def OPS(E):
         'pubfile_lookup': (with_pubfile, one('pubfilelookup 0 0 nearest %d' % (E.t + 5), ('rc', 'found', 'time'))),
         'async_sign_tcp': (with_async('sign'), async_sign),
         'async_conf_tcp': (with_async('sign'), async_conf),
+        'async_http_from_scratch': (base, async_http_from_scratch),
+        'async_sign_http': (with_async_http, async_sign),       # (the HTTP client registers a context-wide object for the HTTP library when it is first set up)
         'async_extend_signature': (with_async_ext, async_extend_signature),
         'async_signing_handle': (with_async('sign'), async_signing_handle),
         'async_grow_cache': (with_async('sign'), async_grow_cache),
